@@ -1108,6 +1108,7 @@ func init() {
 	register(&Spec{
 		ID: "C13",
 		Run: func(c *Ctx) {
+			c.MessagesJoined("C13")
 			c.ContributionRules("C13")
 			c.StoredBeforeSuccess("C13")
 			c.SessionLifecycle("C13")
@@ -1131,6 +1132,8 @@ func init() {
 			c.ParticipantsAsSent("C12") // every participant records the participant list the initiator sent
 			c.ParticipantCount("C12")
 			c.PolynomialFresh("C12")
+			c.FirstSlashOnly("C12")
+			c.LosslessSplit("C07")                     // "under the requested name": nothing on the way cuts a tail off the name
 			c.OneInstance("C12", "fetcher", "process") // the cache the new account is added to is the one the signer and the lister read
 			c.ImportUnderSessionLock("C12")
 			c.ContributionRules("C13") // the account an instance stores is built from every participant's verified contribution, under the session lock
